@@ -871,6 +871,40 @@ def gen_relations(g, verb, ctxs, proc_buf=None):
                     emit(forge(0x23, 0x34, de, se, 0, [b9] + rest, flags=flags), "relation:special-product")
 
 
+def gen_mirror(g, tier):
+    """traffic that mirrors the context's own state back at it: requests and responses of every
+    command whose data are the context's own EID, UUID, message types and vendor sets, from sources
+    and to destinations equal to its EID / address / something else, before and after the state was
+    set; each followed by observations of the state (duplicate-detection logic, loop-back guards, …)"""
+    r = g.r
+    T = tier == "thorough"
+    for (addr, eid, uuid, types, vendors) in [(0x23, 0x47, list(range(0x10, 0x20)), [0x7E, 0x05], [(0, 0x1234, 0xAB), (1, 0x00C0FFEE, 7)]),
+                                              (0x62, 0x62, [0xA5] * 16, [], [(1, 0xDEADBEEF, 3)]),
+                                              (g.rb() | 1, 0x09, g.rbytes(16), g.rbytes(3), g.rand_vendors(2))]:
+        cid = g.ctx(addr, types, vendors)
+        observe = [ctrl_req(2, []), ctrl_req(3, [])]
+        for phase in range(3):
+            if phase == 1:
+                g.add("setuuid %s %s" % (cid, hx(uuid)), "mirror:setup")
+            if phase == 2:
+                g.add("proc %s %s %s" % (cid, hx(forge(addr & 0x7F, 0x31, eid, 0x31, 0, ctrl_req(1, [0, eid]))), hx([0] * 64)), "mirror:setup")
+            v0 = vendors[0]
+            vbytes = ([v0[1] >> 8 & 0xFF, v0[1] & 0xFF] if v0[0] == 0 else [v0[1] >> 24 & 0xFF, v0[1] >> 16 & 0xFF, v0[1] >> 8 & 0xFF, v0[1] & 0xFF]) + [v0[2] >> 8, v0[2] & 0xFF]
+            bodies = [ctrl_resp(2, 0, [eid, 0, 0]), ctrl_resp(2, 0, [eid, 0x10, 0]), ctrl_resp(3, 0, uuid), ctrl_resp(5, 0, [len(types)] + list(types)),
+                      ctrl_resp(6, 0, [0xFF, v0[0]] + vbytes), ctrl_resp(1, 0, [0, eid, 0]), ctrl_resp(4, 0, [1, 0xF1, 0xF3, 0xF1, 0]),
+                      ctrl_req(1, [0, eid]), ctrl_req(1, [1, eid]), ctrl_req(1, [0, addr]), ctrl_req(3, []) + uuid, ctrl_req(2, [])]
+            srcs = [eid, addr, 0x31] + ([0, 0xFF] if T else [])
+            dsts = [eid, addr, 0x00] + ([0xFF, 0x31] if T else [])
+            for body in bodies:
+                for se in srcs:
+                    for de in dsts:
+                        for s7 in ((se & 0x7F, 0x31) if T else (se & 0x7F,)):
+                            p = forge(addr & 0x7F, s7, de, se, 0, body)
+                            g.add("proc %s %s %s" % (cid, hx(p), hx(g.buf(64))), "mirror:p%d" % phase)
+                            ob = r.choice(observe)
+                            g.add("proc %s %s %s" % (cid, hx(forge(addr & 0x7F, 0x31, 0x00, 0x31, 0, ob)), hx([0] * 64)), "mirror:observe")
+
+
 def gen_own_config(g, tier):
     """messages that carry the context's own configured identifiers (vendor IDs, message types, EIDs,
     address) in their payload: processing must still agree with decoding"""
@@ -980,6 +1014,7 @@ def gen_for(prop, tier, seed):
         if T:
             gen_sweeps(g, "dec")
     elif prop == "C10":
+        gen_mirror(g, tier)
         ctxs = gen_decode_families(g, tier, "dec")
         gen_decode_families(g, tier, "proc", ctxs=ctxs)
         gen_relations(g, "dec", ctxs)
@@ -1027,6 +1062,7 @@ def gen_for(prop, tier, seed):
             g.add("proc %s %s %s" % (cid, hx(p), hx(g.buf(64))), "inert:bad-pec")
             g.add("proc %s %s %s" % (cid, hx(forge(1, 2, 3, 4, 0, ctrl_req(2, []))), hx(g.buf(64))), "inert:observe")
     elif prop == "C11":
+        gen_mirror(g, tier)
         r2 = random.Random(seed + 1)
 
         def pb():
@@ -1076,6 +1112,7 @@ def gen_for(prop, tier, seed):
                 g.add("proc %s %s %s" % (cid, hx(p), hx(g.buf(64))), "answer-foreign:" + lab)
     elif prop == "C13":
         gen_repeats(g, tier, ("proc",))
+        gen_mirror(g, tier)
         c13 = [g.ctx(0x23, [0x7E], [(0, 0x1234, 0xAB)]), g.ctx(0x10, [], g.rand_vendors(2))]
         gen_relations(g, "proc", c13)
         gen_state_probes(g, tier)
@@ -1135,6 +1172,7 @@ def gen_for(prop, tier, seed):
                     if r.random() < 0.2:
                         gen_history(g, 1, cid, (addr, [], vendors), "walk-interleave")
     elif prop == "C15":
+        gen_mirror(g, tier)
         gen_repeats(g, tier, ("proc",))
         # UUID updates that differ only in their tail / head, from and to the nil UUID
         cid = g.ctx(0x4D, [0x7E], [(0, 1, 1)])
